@@ -10,13 +10,15 @@ resolution functions during a repeat.
 """
 
 import contextlib
+import os
+import pickle
 import io
 import json
 
 from .. import gen
 from ..common import Harness, begin_run, ref_outcomes
 from ..rng import run_rng, stable_hash, weighted
-from ..trace import Sim
+from ..trace import HarnessError, Sim
 
 ID = "C20"
 NAME = "c20"
@@ -84,7 +86,7 @@ def gen_scenario(seed, index):
     for _ in range(n):
         k = weighted(rng, [("repeat", 60), ("sibling", 10), ("fail", 12), ("fault", 12), ("resolve", 6),
                            ("display", 3), ("derive", 4), ("introspect", 5), ("abc", 3),
-                           ("registry", 2), ("flood", 1.5), ("refused", 3),
+                           ("registry", 2), ("flood", 1.5), ("refused", 3), ("fork", 1.5),
                            ("mutate", 3 if not mutated else 0.5)])
         if k in ("repeat", "fail"):
             ops.append({"op": k, "i": rng.randrange(len(corpus))})
@@ -111,6 +113,10 @@ def gen_scenario(seed, index):
         elif k == "refused":
             # a registration the library refuses (a *args function): the method set does not change
             ops.append({"op": "refused"})
+        elif k == "fork":
+            # the rest of the history runs in a forked copy of the process (same functions, same
+            # method sets, same caches)
+            ops.append({"op": "fork"})
         elif k == "flood":
             # many first-time argument types (fresh subclasses): a bounded cache must not evict
             # what was resolved before
@@ -146,6 +152,26 @@ def type_combo(c):
 
 
 def execute(scen):
+    ctx = {"child_fd": None}
+    try:
+        res = _execute(scen, ctx)
+    except BaseException as e:  # noqa: BLE001
+        if ctx["child_fd"] is None:
+            raise
+        res = {"child_error": repr(e)[:500]}
+    if ctx["child_fd"] is not None:
+        # we are the forked copy: hand the result to the original process and vanish
+        try:
+            data = pickle.dumps(res)
+            while data:
+                n = os.write(ctx["child_fd"], data)
+                data = data[n:]
+        finally:
+            os._exit(0)
+    return res
+
+
+def _execute(scen, ctx):
     if scen.get("threaded"):
         return execute_threads(scen)
     begin_run()
@@ -296,6 +322,30 @@ def execute(scen):
                 stats["faults_fired"] += 1
                 stats["disturb"]["fault:" + op["kind"]] = stats["disturb"].get("fault:" + op["kind"], 0) + 1
             trace.append(["fault", fired])
+        elif k == "fork":
+            if ctx["child_fd"] is not None:
+                continue  # one level is enough
+            rfd, wfd = os.pipe()
+            pid = os.fork()
+            if pid == 0:
+                os.close(rfd)
+                ctx["child_fd"] = wfd
+                stats["disturb"]["fork"] = stats["disturb"].get("fork", 0) + 1
+                trace.append(["fork"])
+                continue
+            os.close(wfd)
+            chunks = []
+            while True:
+                b = os.read(rfd, 1 << 16)
+                if not b:
+                    break
+                chunks.append(b)
+            os.close(rfd)
+            os.waitpid(pid, 0)
+            res = pickle.loads(b"".join(chunks)) if chunks else {"child_error": "no result"}
+            if "child_error" in res:
+                raise HarnessError("forked continuation failed: " + res["child_error"])
+            return res
         elif k == "resolve":
             c = corpus[op["i"]]
             if not c.get("kw"):
